@@ -225,6 +225,11 @@ Example C19_contains_ex : sorted [1; 3; 3; 7; 9] /\ contains_sorted 7 [1; 3; 3; 
   contains_sorted 4 [1; 3; 3; 7; 9] = false /\ index 3 [1; 3; 3; 7; 9] = 1 /\ index 4 [1; 3; 3; 7; 9] = -1.
 Proof. split; [apply sorted_StronglySorted; repeat constructor; lia|]. vm_compute. repeat split. Qed.
 
+(* Clone, Concat *)
+Theorem C19_clone_concat : forall xs ys, clone xs = xs /\ concat xs ys = xs ++ ys.
+Proof. exact (fun xs ys => conj (clone_eq xs) (concat_eq xs ys)). Qed.
+Print Assumptions C19_clone_concat.
+
 (* Unique: the first element and every element that differs from its predecessor in the input;
    no two neighbours of the result are equal; same elements *)
 Theorem C19_unique_spec : forall xs,
@@ -310,7 +315,19 @@ Theorem C19_basis_spec : forall n i,
 Proof. exact basis_spec. Qed.
 Print Assumptions C19_basis_spec.
 
+(* New(n): n zeros.  Idx on a basis vector panics exactly outside [0,n) *)
+Theorem C19_vnew_spec : forall n, length (vnew n) = n /\ forall j, nth j (vnew n) 0 = 0.
+Proof. exact vnew_spec. Qed.
+Print Assumptions C19_vnew_spec.
+
+Theorem C19_basis_idx_spec : forall n i j,
+  ((j < n)%nat -> basis_idx n i j = Ok (nth j (basis n i) 0)) /\
+  ((n <= j)%nat -> basis_idx n i j = Panic ($"index")).
+Proof. exact basis_idx_spec. Qed.
+Print Assumptions C19_basis_idx_spec.
+
 Example C19_vector_ex : length [1; 2; 3] = length [10; 20; -3] /\ vadd [1; 2; 3] [10; 20; -3] = Ok [11; 22; 0] /\
   length [1; 2] <> length [1] /\ vadd [1; 2] [1] = Panic ($"lenmismatch") /\
-  vlsh [1; -3; 0] 4 = [16; -48; 0] /\ basis 4 2 = [0; 0; 1; 0] /\ basis 2 5 = [0; 0].
+  vlsh [1; -3; 0] 4 = [16; -48; 0] /\ basis 4 2 = [0; 0; 1; 0] /\ basis 2 5 = [0; 0] /\
+  vnew 3 = [0; 0; 0] /\ basis_idx 4 2 2 = Ok 1 /\ basis_idx 4 2 4 = Panic ($"index").
 Proof. vm_compute. repeat split; discriminate. Qed.
